@@ -80,3 +80,28 @@ pub fn skip_supports(l: usize, mask: u8) {
     assert!(r.len() == 8);
     assert!(u64::load(&mut r).unwrap() == tail);
 }
+
+/// Rank support only (its size is concrete): written or not, loaded, enabled, idempotent, and the
+/// rank answers are exact on the loaded copy — for vectors up to several blocks.
+pub const RB: usize = 192;
+pub fn rank_support(l: usize, written: bool) {
+    let (raw, b) = any_bits(l);
+    let mut bv = BitVector::from(raw);
+    if written { bv.enable_rank(); }
+    let mut buf = [0x3Cu8; RB];
+    let size = bv.size_in_bytes();
+    assert!(size <= RB && size == 8 * bv.size_in_elements());
+    let left = { let mut w: &mut [u8] = &mut buf; bv.serialize(&mut w).unwrap(); w.len() };
+    assert!(RB - left == size);
+    let mut r: &[u8] = &buf[..];
+    let mut y = BitVector::load(&mut r).unwrap();
+    assert!(RB - r.len() == size);
+    assert!(y.supports_rank() == written && !y.supports_select() && !y.supports_select_zero());
+    assert!(y == bv);
+    y.enable_rank(); bv.enable_rank();
+    assert!(y.supports_rank() && y == bv);
+    let z = y.clone(); y.enable_rank(); assert!(y == z);
+    let i = sym::usize();
+    assert!(y.rank(i) == b.rank(i));
+    if i < l { assert!(y.get(i) == b.bit(i)); }
+}
